@@ -74,6 +74,12 @@ def run(ctx):
              "opcode is an End that no label points past (an End inside a trailing IF branch does "
              "not terminate the program)")
     codegen.check_program_end(ctx, "C01.i", cr)
+    ctx.rule("C01.j", "code emission does not look back at emitted code: the inspection API of "
+             "Link (last, has_symbol_at, get) is called only by Program::link / Program::get, so "
+             "no generator drops or alters a jump depending on what the previous fragment ended "
+             "with; IF..ELSE emits its jump over the ELSE part unconditionally between the THEN "
+             "part and the else label")
+    rule_j(ctx, cr)
 
 
 def rule_a(ctx, cr):
@@ -247,7 +253,54 @@ def dispatch_now(cr):
     return lp, tab
 
 
+def skipped_handlers(cr, only=None):
+    """[(variant, handler, span)] for handler calls of a dispatch arm that some path from the
+    arm's entry back to the head of the dispatch loop does not pass (error returns leave the
+    loop and do not count): a handler that runs only under an extra condition"""
+    lp = cr.need_fn("mach::runtime::Runtime::execute_loop")
+    hdr = {c.bb for c in lp.calls() if "iter::range" in c.name and c.name.endswith("::next")}
+    sw = None
+    for b in lp.reachable():
+        t = lp.term(b)
+        if t["k"] == "switch" and len(t["targets"]) > 60:
+            sw = t
+    if sw is None or not hdr:
+        raise MissingAnchorLike("dispatch switch / loop head of execute_loop")
+    names = {v["discr"]: v["name"] for v in cr.adts[OPC]["variants"]}
+    out = []
+    n = 0
+    for val, tb in sw["targets"]:
+        v = names.get(val)
+        if only and v not in only:
+            continue
+        for c in lp.calls():
+            if not (c.name.startswith("mach::") or c.name.startswith("<mach::")):
+                continue
+            if not any(cc[0] == "variant" and cc[2] == OPC and cc[3] == v
+                       for cc in lp.conds_at(c.bb)):
+                continue
+            n += 1
+            if lp.reach_set(tb, avoid={c.bb}) & hdr:
+                out.append((v, c.name, c.span))
+    return out, n
+
+
+class MissingAnchorLike(Exception):
+    pass
+
+
 def rule_d(ctx, cr):
+    try:
+        skipped, n = skipped_handlers(cr)
+    except MissingAnchorLike as e:
+        ctx.missing("C01.d", str(e))
+        skipped, n = [], 0
+    ctx.floor("C01.d", "handler calls in dispatch arms", n, 90)
+    ctx.check(not skipped, "C01.d", "dispatch/unconditional", "",
+              "%d handler calls, each on every path through its arm" % n,
+              "handler calls that an arm can skip: %s: the opcode then does nothing under that "
+              "condition (e.g. Clear skipped: RUN/CLEAR keep variables, DEFtypes, DATA position)"
+              % [(v, h.rsplit("::", 1)[1]) for v, h, _s in skipped])
     with open(os.path.join(HERE, "dispatch_table.json")) as fh:
         frozen = json.load(fh)
     lp, now = dispatch_now(cr)
@@ -291,6 +344,40 @@ def rule_d(ctx, cr):
     ctx.check(flags == {"OnGoto": False, "OnGosub": True}, "C01.d", "statement/on-flag", gs.span,
               "ON..GOTO / ON..GOSUB pass is_gosub = false / true",
               "ON..GOTO / ON..GOSUB pass is_gosub = %s" % flags)
+
+
+def rule_j(ctx, cr):
+    want = {"mach::link::Link::last": {"mach::program::Program::link"},
+            "mach::link::Link::has_symbol_at": {"mach::program::Program::link"},
+            "mach::link::Link::get": {"mach::program::Program::get"}}
+    for fn, ok in sorted(want.items()):
+        cr.need_fn(fn)
+        callers = set(cr.callers_of(fn))
+        ctx.check(callers <= ok, "C01.j", "peephole/%s" % fn.rsplit("::", 1)[1], "",
+                  "called only by %s" % sorted(ok),
+                  "%s is now also called by %s: emission that depends on the previously emitted "
+                  "opcode (e.g. dropping a jump after a Jump) is wrong for fragments that can "
+                  "fall through (ON..GOTO with an out-of-range selector)"
+                  % (fn, sorted(callers - ok)))
+    f = cr.need_fn("mach::codegen::Generator::if")
+    ctx.touch(f)
+    pj = f.calls_to("mach::link::Link::push_jump")
+    pi = f.calls_to("mach::link::Link::push_ifnot")
+    ps = f.calls_to("mach::link::Link::push_symbol")
+    if not ctx.check(len(pj) == 1 and len(pi) == 1 and len(ps) >= 3, "C01.j", "if/shape", f.span,
+                     "one IfNot, one Jump over the ELSE part, labels for else and end"):
+        return
+    else_labels = [c for c in ps if f.same_origin(c.args[1], pi[0].args[2])]
+    end_labels = [c for c in ps if f.same_origin(c.args[1], pj[0].args[2])]
+    ok = any(f.dominates(pj[0].bb, c.bb) for c in else_labels) and \
+        bool(end_labels) and all(f.dominates(pj[0].bb, c.bb) for c in end_labels)
+    ctx.check(ok, "C01.j", "if/jump-over-else-unconditional", pj[0].span,
+              "the Jump to the end label dominates the else label of the ELSE form and the end label",
+              "IF..ELSE: the jump over the ELSE part is not emitted on every path before the "
+              "else label: when the THEN part falls through (ON..GOTO out of range, GOSUB "
+              "return) execution runs into the ELSE statements")
+    ctx.check(len(else_labels) == 2, "C01.j", "if/else-label-both-forms", f.span,
+              "the IfNot target label is placed in the form without and with ELSE")
 
 
 def rule_f(ctx, cr):
